@@ -131,8 +131,17 @@ const NAMES: [&str; 24] = [
     "Zone",
 ];
 const CRATES: [&str; 7] = ["alpha", "beta-core", "gamma", "delta_x", "eps-i-lon", "codable", "alpha-ext"];
-const FILES: [&str; 7] =
-    ["src/lib.rs", "src/model.rs", "src/api/mod.rs", "src/api/types.rs", "src/api/v2/wire.rs", "src/util.rs", "src/z.rs"];
+const FILES: [&str; 9] = [
+    "src/lib.rs",
+    "src/model.rs",
+    "src/api/mod.rs",
+    "src/api/types.rs",
+    "src/api/v2/wire.rs",
+    "src/util.rs",
+    "src/z.rs",
+    "src/my module.rs",
+    "src/\u{fc}n\u{ef}/wire types.rs",
+];
 const FIELD_NAMES: [&str; 10] =
     ["id", "name", "created_at", "items", "owner_ref", "flags", "meta_data", "count", "value", "child"];
 
@@ -812,6 +821,18 @@ pub fn default_config(r: &mut Rng, lang: &str, omit_package: bool) -> String {
     }
     s
 }
+
+/// C07: unusual typeshare.toml contents (a correct tool accepts or rejects them, never panics)
+pub const CONFIG_EDGES: &[(&str, &str)] = &[
+    ("not_toml", "this is = = not toml [[\n"),
+    ("wrong_types", "[go]\npackage = 5\n[kotlin]\npackage = [\"a\"]\n"),
+    ("unknown_keys", "[go]\npackage = \"p\"\nnonsense = true\n[scala]\npackage = \"p\"\n[kotlin]\npackage = \"p\"\n[rust]\nx = 1\n"),
+    ("empty_strings", "[go]\npackage = \"p\"\nuppercase_acronyms = [\"\", \"a\"]\n[scala]\npackage = \"p\"\nmodule_name = \"\"\n[kotlin]\npackage = \"p\"\nprefix = \"\"\nmodule_name = \"\"\n[swift]\nprefix = \"\"\ndefault_decorators = [\"\"]\ndefault_generic_constraints = [\"\"]\ncodablevoid_constraints = [\"\"]\n"),
+    ("odd_mappings", "[go]\npackage = \"p\"\n[go.type_mappings]\n\"String\" = \"\"\n\"u32\" = \"weird type<>\"\n[scala]\npackage = \"p\"\n[kotlin]\npackage = \"p\"\n[kotlin.type_mappings]\n\"\" = \"X\"\n\"Vec\" = \"List\"\n[swift.type_mappings]\n\"()\" = \"Void\"\n\"Option\" = \"Maybe\"\n[typescript.type_mappings]\n\"HashMap\" = \"Record\"\n\"bool\" = \"\"\n[python.type_mappings]\n\"f64\" = \"Decimal\"\n\"String\" = \"\"\n"),
+    ("dotted_package", "[go]\npackage = \"a.b-c d\"\n[scala]\npackage = \"...\"\nmodule_name = \".\"\n[kotlin]\npackage = \"com..example.\"\nmodule_name = \"1\"\n"),
+    ("unicode_values", "[go]\npackage = \"p\u{e4}ckchen\"\nuppercase_acronyms = [\"\u{fc}rl\", \"\u{df}\"]\n[scala]\npackage = \"\u{e9}.\u{e8}\"\n[kotlin]\npackage = \"\u{e9}.\u{e8}\"\nprefix = \"\u{c4}\"\n[swift]\nprefix = \"\u{d6}\"\n"),
+    ("empty_file", ""),
+];
 
 // ------------------------------------------------------------------------------------------------
 // catalogues
